@@ -190,8 +190,8 @@ def run(pid, tier, seed):
                 chk.cov["monitor_hits"] += 1
     # correspondence in shards of 150 scenarios
     mism_total = []
-    for i in range(0, len(scen), 150):
-        mism, out = correspondence(chk, "%s_%d" % (pid, i // 150), scen[i:i + 150])
+    shards = [(i // 100, scen[i:i + 100]) for i in range(0, len(scen), 100)]
+    for mism, out in vlib.parallel_map(lambda s: correspondence(chk, "%s_%d" % (pid, s[0]), s[1]), shards):
         if mism is None:
             chk.violation("corr_eval.txt", "in-Coq evaluation failed:\n" + out, no_input=True)
             break
